@@ -103,6 +103,12 @@ theorem loop_covers_via_certificate (Sol : Set (List ℝ)) (P : Policy) (root : 
 theorem loop_success (P : Policy) (s : St) (h : step P s = none) : s.paving.boxes = s.stored := by
   simp [St.paving, step_none h]
 
+/-- every log of the model is loop-shaped: the tag `loop-shaped` that the driver attaches to the accepted REAL logs
+    (`SearchLoop.loopShaped`: pushes of the roots, then iterations `top, ctc*, pop, (push, push)?`) is the shape of the model's
+    own logs -/
+theorem loop_log_shaped (P : Policy) (root : Box) (fuel : Nat) :
+    loopShaped (run P fuel (St.init root)).log = true := run_loopShaped root fuel
+
 /-! ### interrupted and resumed searches (C18): any chain of runs with fresh components -/
 
 /-- a search interrupted any number of times: each stage continues from the buffer (pending boxes) and the stored boxes
